@@ -46,7 +46,15 @@ func (t *Template) FindTranslation(channel *Channel, locales []i18n.Locale) *Tem
 		return nil
 	}
 
-	match := i18n.NewBCP47Matcher(candidateLocales...).ForLocales(locales...)
+	// a nil locale (no usable language) can't be matched against so ignore those
+	preferred := make([]i18n.Locale, 0, len(locales))
+	for _, l := range locales {
+		if l != i18n.NilLocale {
+			preferred = append(preferred, l)
+		}
+	}
+
+	match := i18n.NewBCP47Matcher(candidateLocales...).ForLocales(preferred...)
 	return candidates[match]
 }
 
